@@ -72,8 +72,12 @@ Definition kw_ok3 (ns : option str) (nm : str) : bool := name_ok nm && ns_ok ns.
 
 Definition is_none {A} (o : option A) : bool := match o with None => true | Some _ => false end.
 
-Definition digits_of (z : Z) : nat := length (dec_N (Z.abs_N z)).
-Definition int_too_long (z : Z) : bool := (int_max_str_digits <? digits_of z)%nat.
+(** F-03e: more than 4300 decimal digits, i.e. 10^4300 <= |z|.  10^4300 has 14285 bits; the
+    bit size decides except for numbers of exactly that size (Proofs: [int_too_long_spec]). *)
+Definition int_too_long (z : Z) : bool :=
+  let n := Z.abs_N z in
+  let bits := N.size n in
+  if bits <=? 14284 then false else if 14286 <=? bits then true else (10 ^ 4300 <=? n).
 
 Section Guard.
   Variable is_repr is_dec is_imag is_uuid is_inst re_ok : str -> bool.
